@@ -191,7 +191,12 @@ def statsJ (g : Graph) : J :=
   .obj (und ++ [("iet", gl), ("f_iet", gl),
     ("niet", .obj (nodes.map (fun n => (toString n, J.obj ([("iet", histJ (g.interEventNode n))] ++
       (if g.directed then [("in", histJ (g.interEventIn n)), ("out", histJ (g.interEventOut n))] else []))))))] ++
-    (if g.directed then [("iet_in", gl), ("iet_out", gl)] else []))
+    (if g.directed then [("iet_in", gl), ("iet_out", gl)] else []) ++
+    -- the per-interaction variants, every ordered pair of nodes
+    [("piet", .obj (nodes.flatMap (fun a => nodes.map (fun b =>
+      (toString a ++ "," ++ toString b, J.obj (
+        [("both", match g.interEventPair a b with | .ok h => histJ h | .error e => jerr e)] ++
+        (if g.directed then [("in", histJ (g.interEventPairIn a b)), ("out", histJ (g.interEventPairOut a b))] else [])))))))])
 
 def occJ (o : Occ) : J := .arr [jn o.1, ji o.2]
 
